@@ -2,3 +2,7 @@ import LianVerif.Model.PathStore
 import LianVerif.Spec.MaxPaths
 import LianVerif.Proofs.PathStore
 import LianVerif.Properties.C19
+import LianVerif.Model.EntryPoints
+import LianVerif.Spec.EntrySelect
+import LianVerif.Proofs.EntryPoints
+import LianVerif.Properties.C20
